@@ -205,8 +205,9 @@ class Translator:
             if isinstance(op, ast.Eq): return ("(String.eqb %s %s)" % (a[0], b[0]), "B")
             raise Refuse("string compare")
         if ta == "X" and tb == "X":
-            f = {ast.Lt: "XQ.ltb", ast.Gt: "XQ.gtb", ast.LtE: "XQ.leb", ast.GtE: "XQ.geb"}.get(type(op))
+            f = {ast.Lt: "XQ.ltb", ast.Gt: "XQ.gtb", ast.LtE: "XQ.leb", ast.GtE: "XQ.geb", ast.Eq: "XQ.eqb"}.get(type(op))
             if f: return ("(%s %s %s)" % (f, a[0], b[0]), "B")
+            if isinstance(op, ast.NotEq): return ("(negb (XQ.eqb %s %s))" % (a[0], b[0]), "B")
             raise Refuse("X compare")
         if ta == "X" and isinstance(op, ast.IsNot) and isinstance(node.comparators[0], ast.Constant) and node.comparators[0].value is None:
             return ("true", "B")
@@ -269,6 +270,10 @@ class Translator:
             b, tb = self.expr(node.args[2], env, sp)
             if tc == "B" and ta in ("Z", "Q") and tb in ("Z", "Q"):
                 return ("(if %s then %s else %s)" % (c, self.toQ((a, ta)), self.toQ((b, tb))), "Q")
+            if tc == "B" and "X" in (ta, tb) and ta in ("Z", "Q", "X") and tb in ("Z", "Q", "X"):
+                # one branch is +-inf: the result lives in the extended rationals
+                toX = lambda v, t: v if t == "X" else "(XQ.Fin %s)" % self.toQ((v, t))
+                return ("(if %s then %s else %s)" % (c, toX(a, ta), toX(b, tb)), "X")
             raise Refuse("np.where types %s %s %s" % (tc, ta, tb))
         if fn_txt == "np.concatenate" and len(node.args) == 1 and isinstance(node.args[0], ast.List) and not node.keywords:
             parts = [self.expr(e, env, sp) for e in node.args[0].elts]
@@ -304,10 +309,17 @@ class Translator:
                 raise Refuse("fit argument")
             if m in ("cdf", "ppf") and len(node.args) == 2 and isinstance(node.args[1], ast.Starred):
                 v, t = self.expr(node.args[0], env, sp)
-                pf, tp = self.expr(node.args[1].value, env, sp)
+                sv = node.args[1].value
+                if isinstance(sv, ast.Name) and sv.id in sp.vararg and len(sp.vararg[sv.id]) == 1:
+                    pf, tp = sp.vararg[sv.id][0][0], sp.vararg[sv.id][0][1]      # *fit where fit is the whole parameter tuple
+                else:
+                    pf, tp = self.expr(sv, env, sp)
                 if tp != "P": raise Refuse("%s parameters" % m)
                 if t == "LQ": return ("(map (%s %s %s) %s)" % (m, D, pf, v), "LQ")
                 if t == "Q": return ("(%s %s %s %s)" % (m, D, pf, v), "Q")
+                # an extended rational reaches the distribution only inside a vectorised np.where whose other
+                # branch handles the infinite case: the finite part is passed on (XQ.val of +-inf is 0, discarded)
+                if t == "X": return ("(%s %s %s (XQ.val %s))" % (m, D, pf, v), "Q")
                 raise Refuse("%s argument" % m)
             raise Refuse("distribution.%s form" % m)
         name = call_name(node)
